@@ -131,7 +131,25 @@ func pairsTerm(ps [][2]int) string {
 	for _, p := range ps {
 		s = append(s, fmt.Sprintf("(%d,%d)", p[0], p[1]))
 	}
-	return coqfmt.List(s)
+	return bigList(s)
+}
+
+// bigList prints a long list as a concatenation of literals of at most 150 elements: coqc
+// elaborates one list literal in time quadratic in its length
+func bigList(items []string) string {
+	const chunk = 150
+	if len(items) <= 2*chunk {
+		return coqfmt.List(items)
+	}
+	var parts []string
+	for i := 0; i < len(items); i += chunk {
+		j := i + chunk
+		if j > len(items) {
+			j = len(items)
+		}
+		parts = append(parts, coqfmt.List(items[i:j]))
+	}
+	return "(" + strings.Join(parts, " ++ ") + ")%list"
 }
 func sortedPairs(m map[uint32]int) [][2]int {
 	var out [][2]int
@@ -720,6 +738,12 @@ func runCase(c *caseIn, r *rng.R) (res result) {
 			if msg := doRead(); msg != "" {
 				return bad(msg)
 			}
+		case "readn":
+			for k := 0; k < op.N; k++ {
+				if msg := doRead(); msg != "" {
+					return bad(msg)
+				}
+			}
 		case "readmeta":
 			timeout := wd
 			if !closed && qm == 0 {
@@ -867,8 +891,8 @@ func runCase(c *caseIn, r *rng.R) (res result) {
 	for _, p := range c.Pre {
 		preT = append(preT, fmt.Sprint(p))
 	}
-	res.term = fmt.Sprintf("mkDsCase %s %s %s %s %s %s %s %s %s %d %d (%d,%d,%d)", coqfmt.List(flT), coqfmt.List(preT), coqfmt.List(evT), pairsTerm(openT),
-		coqfmt.List(readsT), coqfmt.Bool(stable), coqfmt.List(metasT), coqfmt.List(maT), coqfmt.List(acksT), nbefore, ncloses,
+	res.term = fmt.Sprintf("mkDsCase %s %s %s %s %s %s %s %s %s %d %d (%d,%d,%d)", coqfmt.List(flT), coqfmt.List(preT), bigList(evT), pairsTerm(openT),
+		bigList(readsT), coqfmt.Bool(stable), bigList(metasT), bigList(maT), bigList(acksT), nbefore, ncloses,
 		st.LastIssuedChunkAckID, st.LastIssuedDataIDAlias, st.LastIssuedUpstreamInfoAlias)
 	res.observed = map[string]interface{}{"reads": len(readsT), "ok_reads": okReads, "acks": len(acks), "closes": ncloses,
 		"acks_before_close": nbefore, "metaacks": len(metaacks), "await_timed_out": awaitFailed,
@@ -1114,6 +1138,28 @@ func genStuck(r *rng.R) *caseIn {
 	return c
 }
 
+// thousands of chunks returned between two ack flushes (long flush interval), then Close: every one
+// of them must be acknowledged before the close request, however many acks that takes
+func genBigBurst(r *rng.R, total, intervalMs int, midTick bool) *caseIn {
+	c := &caseIn{QoS: r.Intn(3), NSrc: 1, IntervalMs: intervalMs}
+	seq, left, first := 1, total, true
+	for left > 0 {
+		n := 700 + r.Intn(300)
+		if n > left {
+			n = left
+		}
+		c.Ops = append(c.Ops, opIn{Op: "burst", N: n, UpFull: first, Up: 1, Seq: seq}, opIn{Op: "readn", N: n})
+		if midTick && first {
+			c.Ops = append(c.Ops, opIn{Op: "await"})
+		}
+		first = false
+		seq += n
+		left -= n
+	}
+	c.Ops = append(c.Ops, opIn{Op: "close"})
+	return c
+}
+
 // more items than the queues hold: the first 1024 are kept, the rest dropped
 func genOverflow(r *rng.R, metaToo bool) *caseIn {
 	c := &caseIn{QoS: r.Intn(3), NSrc: 1, IntervalMs: 5}
@@ -1237,6 +1283,20 @@ func main() {
 		for i := 0; i < nmb; i++ {
 			add(genMetaBurst(r.Fork()), "metaburst")
 		}
+		// spread over the shards (60 cases each): their terms are the large ones
+		big := []*caseIn{genBigBurst(r.Fork(), 2500, 10000, false), genBigBurst(r.Fork(), 3100, 3600000, false),
+			genBigBurst(r.Fork(), 1500, 10000, false), genBigBurst(r.Fork(), 2300, 20, true)}
+		if *tier == "thorough" {
+			big = append(big, genBigBurst(r.Fork(), 4200, 10000, false), genBigBurst(r.Fork(), 2001, 10000, false),
+				genBigBurst(r.Fork(), 2000, 10000, false), genBigBurst(r.Fork(), 5000, 5, true))
+		}
+		for k, bc := range big {
+			pos := 30 + k*60
+			if pos > len(jobs) {
+				pos = len(jobs)
+			}
+			jobs = append(jobs[:pos], append([]job{{bc, "bigburst", r.U64()}}, jobs[pos:]...)...)
+		}
 	}
 	results := make([]coqfmt.Case, len(jobs))
 	counts := make([]map[string]int, len(jobs))
@@ -1280,7 +1340,7 @@ func main() {
 			}
 		}
 	}
-	rule := "scripted switch-over histories; overflow histories (more than 1024 chunks / metadata items queued before any read); random: 4-31 ops over 1-5 upstreams x 1-6 data ids mixing full and alias forms (full form again after the alias exists, alias used in the chunk that introduces the id, unknown aliases, pre-registered ids), 0-4 groups of 0-3 points, metadata from 1-3 source nodes, reads lagging arbitrarily, reads on an empty queue, awaits of the timer-driven ack flush (interval 1/5/20 ms) or a 10 s interval with everything pending at Close, reads and a second Close after Close, QoS x3; outage: the same with 1-2 loud link failures in the middle (keepalive 10/40 ms, the broker accepts the redial and the resume request), half of them with a 10 s flush interval so that every result read before the failure is still pending when the link dies; the failed flushes are recovered from the gap in the ack ids; stuck: the peer stops reading so that an ack flush blocks in the transport write, the next chunk is read meanwhile, then the link is cut (the write fails) and the stream resumes; metaburst: 3-5 rounds of 300-500 metadata of a node named by two or three filters, sent back to back with a concurrent reader; filters may name a node twice, metadata of nodes without filter are sent too; pre-registered id lists may repeat an id. non-trivial = >=2 upstreams returned, >=1 returned chunk whose upstream came in alias form, >=1 returned group in alias form, >=2 acks; distinct = distinct Coq case terms"
+	rule := "scripted switch-over histories; overflow histories (more than 1024 chunks / metadata items queued before any read); random: 4-31 ops over 1-5 upstreams x 1-6 data ids mixing full and alias forms (full form again after the alias exists, alias used in the chunk that introduces the id, unknown aliases, pre-registered ids), 0-4 groups of 0-3 points, metadata from 1-3 source nodes, reads lagging arbitrarily, reads on an empty queue, awaits of the timer-driven ack flush (interval 1/5/20 ms) or a 10 s interval with everything pending at Close, reads and a second Close after Close, QoS x3; outage: the same with 1-2 loud link failures in the middle (keepalive 10/40 ms, the broker accepts the redial and the resume request), half of them with a 10 s flush interval so that every result read before the failure is still pending when the link dies; the failed flushes are recovered from the gap in the ack ids; stuck: the peer stops reading so that an ack flush blocks in the transport write, the next chunk is read meanwhile, then the link is cut (the write fails) and the stream resumes; metaburst: 3-5 rounds of 300-500 metadata of a node named by two or three filters, sent back to back with a concurrent reader; filters may name a node twice, metadata of nodes without filter are sent too; pre-registered id lists may repeat an id; bigburst: 1500 / 2300 (with an awaited flush after the first part) / 2500 / 3100 chunks returned by ReadDataPoints with a 20 ms / 10 s / 1 h ack flush interval, then Close. non-trivial = >=2 upstreams returned, >=1 returned chunk whose upstream came in alias form, >=1 returned group in alias form, >=2 acks; distinct = distinct Coq case terms"
 	if err := w.Flush(*seed, *tier, rule, false, nil); err != nil {
 		fmt.Fprintln(os.Stderr, err)
 		os.Exit(2)
